@@ -93,6 +93,23 @@ def configs():
     return C
 
 
+WHOLE_MAP = ["clear", "retain", "retain_force", "reserve", "extend", "iter", "len"]
+WHOLE_SET = ["clear", "retain", "reserve", "extend", "iter", "len"]
+
+
+def whole_op(rng, kind, hot, uids):
+    op = rng.choice(WHOLE_SET if kind == "set" else WHOLE_MAP)
+    o = {"op": op}
+    if op in ("retain", "retain_force"):
+        o.update(f=rng.choice(["even", "odd", "none", "keep", "drop"]), keys=rng.sample(hot, rng.randint(0, len(hot))))
+    elif op == "reserve":
+        o.update(n=rng.choice([1, 20, 100, 200]))
+    elif op == "extend":
+        ks = [rng.choice(hot) for _ in range(rng.randint(1, 4))]
+        o.update(keys=ks, tag=rng.randint(1, 3), n=uids.next(len(ks) + 1), pl=rng.randint(0, 5))
+    return o
+
+
 def perkey_op(rng, kind, hot, uids, weights=None):
     alpha = PERKEY_SET if kind == "set" else PERKEY_MAP
     op = rng.choice(alpha)
@@ -101,6 +118,7 @@ def perkey_op(rng, kind, hot, uids, weights=None):
     if op in ("insert", "try_insert"):
         o["tag"] = rng.randint(1, 3)
         o["n"] = uids.next()
+        o["pl"] = rng.randint(0, 5)
     if op == "compute":
         o["f"] = rng.choice(["inc", "inc", "none", "const"])
         o["n"] = uids.next()
@@ -119,7 +137,7 @@ def schedule(rng, nthreads, est_len=200):
     return {"kind": "rr", "q": rng.randint(1, 5)}
 
 
-def conc_job(rng, jid, cfgname=None, nthreads=None, maxops=3, kinds=("map", "map", "set"), rec=()):
+def conc_job(rng, jid, cfgname=None, nthreads=None, maxops=3, kinds=("map", "map", "set"), rec=(), whole=0.0):
     C = configs()
     name = cfgname or rng.choice(list(C))
     u = Uids()
@@ -128,7 +146,8 @@ def conc_job(rng, jid, cfgname=None, nthreads=None, maxops=3, kinds=("map", "map
     nt = nthreads or rng.choice([2, 2, 3, 3, 4])
     threads = []
     for _ in range(nt):
-        threads.append([perkey_op(rng, kind, c["hot"], u) for _ in range(rng.randint(1, maxops))])
+        threads.append([whole_op(rng, kind, c["hot"], u) if rng.random() < whole else perkey_op(rng, kind, c["hot"], u)
+                        for _ in range(rng.randint(1, maxops))])
     prefix = c["prefix"]
     if kind == "set":
         prefix = [p for p in prefix if p["op"] in ("insert", "remove")]
